@@ -65,7 +65,8 @@ def gen_case(rng):
             kind = "var"
             fmt = rng.choice(ORDERS) + letter
         op = rng.choice(["read", "read", "wconst", "wvar", "wexpr", "iadd",
-                         "isub", "wreg", "wcopy"])
+                         "isub", "wreg", "wcopy", "iand", "ior", "ixor",
+                         "readand"])
         val = rng.getrandbits(8 * size)
         if size == 8 and rng.random() < 0.3:
             # constants around the 32-bit immediate range, as they are and
@@ -87,8 +88,21 @@ def gen_case(rng):
                 sl, ssize = "B", 1
             extra = dict(sfmt=rng.choice(ORDERS) + sl,
                          sp=rng.randint(0, G - ssize))
+        if op in ("iand", "ior", "ixor"):
+            # masks of the 32-bit immediate range and beyond
+            extra = dict(mask=rng.choice([
+                0xffffffff, 0x80000000, 0xffff0000, 0x7f, 0xff00,
+                0xff00ff00ff00ff00, 0xffffffff00000000, 0x7fffffff,
+                rng.getrandbits(8 * size)]))
+        if op == "readand":
+            # the field masked to (part of) its own width: the idiom for
+            # the unsigned value of a signed field
+            full = (1 << (8 * size)) - 1
+            extra = dict(mask=rng.choice([full, full, full >> 1, 0x0f,
+                                          rng.getrandbits(8 * size)]))
         acc.append(dict(kind=kind, fmt=fmt, p=p, op=op, val=val,
-                        amount=rng.choice([1, 3, 7, 255, 65536, -1, -5]),
+                        amount=rng.choice([1, 3, 7, 255, 65536, -1, -5,
+                                           0x80000000, 0xffff0000]),
                         **extra))
     lens = sorted(set(
         [n for n in range(max(14, G - 6), G + 7)] +
@@ -164,6 +178,20 @@ def build(case):
                     put(self.r6)
                     setattr(self, f"o{i}", self.r6)
                     put(self.r6)
+            elif a["op"] == "iand":
+                x = get()
+                x &= a["mask"]
+                put(x)
+            elif a["op"] == "ior":
+                x = get()
+                x |= a["mask"]
+                put(x)
+            elif a["op"] == "ixor":
+                x = get()
+                x ^= a["mask"]
+                put(x)
+            elif a["op"] == "readand":
+                setattr(self, f"o{i}", get() & a["mask"])
             elif a["op"] == "iadd":
                 x = get()
                 x += a["amount"]
@@ -233,6 +261,14 @@ def expected(case, pkt):
             sf = a["sfmt"] if len(a["sfmt"]) > 1 else "=" + a["sfmt"]
             out[a["p"]:a["p"] + size] = enc(
                 struct.unpack_from(sf, out, a["sp"])[0])
+        elif a["op"] == "iand":
+            out[a["p"]:a["p"] + size] = enc(cur & a["mask"])
+        elif a["op"] == "ior":
+            out[a["p"]:a["p"] + size] = enc(cur | a["mask"])
+        elif a["op"] == "ixor":
+            out[a["p"]:a["p"] + size] = enc(cur ^ a["mask"])
+        elif a["op"] == "readand":
+            outs[i] = cur & a["mask"] & ((1 << 64) - 1)
         elif a["op"] == "iadd":
             out[a["p"]:a["p"] + size] = enc(cur + a["amount"])
         elif a["op"] == "isub":
@@ -330,6 +366,8 @@ def check_case(case, res, use_v=True):
                         res.violation(
                             key_for(case, i, "read")
                             if case["acc"][i]["op"] == "read" else
+                            "unexplained:masked read " + classify(case, i)
+                            if case["acc"][i]["op"] == "readand" else
                             "register-changed-by-packet-store",
                             f"read #{i} {case['acc'][i]} gave "
                             f"{outs_k[i]:#x}, struct.unpack gives {v:#x}",
@@ -351,7 +389,7 @@ def check_case(case, res, use_v=True):
                         case=desc, witness=dict(
                             disasm=ebpfvm.disasm(ld.code)[:80]))
                 for i, a in enumerate(case["acc"]):
-                    if a["op"] not in ("read", "wreg"):
+                    if a["op"] not in ("read", "wreg", "readand"):
                         res.count("cmp[" + classify(case, i) + "]")
                 if use_v and n in (G + 1, case["lens"][-1]):
                     m[:] = img
@@ -371,7 +409,7 @@ def check_case(case, res, use_v=True):
                         res.inconc(f"K/V disagree on {desc}")
                     allowed = set()
                     for a in case["acc"]:
-                        if a["op"] != "read":
+                        if a["op"] not in ("read", "readand"):
                             allowed |= set(range(
                                 a["p"],
                                 a["p"] + struct.calcsize(a["fmt"][-1])))
@@ -508,7 +546,7 @@ def finalize(res, tier, seed):
     missing = []
     for kind in ("var", "arr"):
         for op in ("read", "wconst", "wvar", "wexpr", "iadd", "isub",
-                   "wreg", "wcopy"):
+                   "wreg", "wcopy", "iand", "ior", "ixor", "readand"):
             if not any(k.startswith(f"cmp[{kind}/{op}/") for k in c):
                 missing.append(f"{kind}/{op}")
     for sw in ("swapped", "native"):
